@@ -51,17 +51,28 @@ var c19Pool = []c19User{
 	{"cn=long", []string{c19Long}, "password longer than 128 bytes"},
 	{"cn=bin", []string{"p\x00q"}, "password with a NUL inside"},
 	{"cn=ber", []string{"\x04\x02pa"}, "a password that looks like a BER octet string wrapping 'pa'"},
+	{"cn=scheme1", []string{"{CLEARTEXT}hunter2"}, "a password that looks like an RFC 2307 storage scheme (it is the password, as it stands)"},
+	{"cn=scheme2", []string{"{SHA}5en6G6MezRroT3XKqkdPOmY/BfQ="}, "a password that looks like a hashed value ({SHA} of 'secret')"},
+	{"cn=cap", nil, "no password attribute, but one named Password (see c19Extra)"},
+	{"cn=both", []string{"real"}, "a password attribute next to one named Password (see c19Extra)"},
 	{"userPrincipalName=upn@example.com,ou=people,dc=example,dc=org", []string{"pu"}, "an entry named the way NewUsers names them for a UPN domain (the directory is started with Defaults.UPNDomain = example.com)"},
+}
+
+// c19Extra: further attributes of some pool entries - named almost like the password attribute, but not it
+var c19Extra = map[string]map[string][]string{
+	"cn=cap":  {"Password": {"decoy"}},
+	"cn=both": {"Password": {"decoy"}, "PASSWORD": {"decoy2"}},
 }
 
 // c19Long: a 200-byte password; its 128-byte prefix and a variant with a different tail are tried as well
 var c19Long = strings.Repeat("0123456789abcdef", 12) + "tail-one"
 
-var c19DNs = []string{"cn=a", "cn=ab", "cn=a,dc=x", "CN=A", "cn=", "", "cn=e", "cn=d", "cn=c", "\xffcn=a", "cn=long", "cn=bin", "cn=ber", "cn=group-with-password,ou=groups,dc=example,dc=org", "upn@example.com", "upn", "userPrincipalName=upn@example.com,ou=people,dc=example,dc=org"}
+var c19DNs = []string{"cn=a", "cn=ab", "cn=a,dc=x", "CN=A", "cn=", "", "cn=e", "cn=d", "cn=c", "\xffcn=a", "cn=long", "cn=bin", "cn=ber", "cn=scheme1", "cn=scheme2", "cn=cap", "cn=both", "cn=group-with-password,ou=groups,dc=example,dc=org", "upn@example.com", "upn", "userPrincipalName=upn@example.com,ou=people,dc=example,dc=org"}
 var c19PWs = []string{"pa", "pb", "", "p2", "other", "p1", "pa\x00", "\x00", "p", "p\x00q", "p\x00", c19Long, c19Long[:128], c19Long[:192] + "tail-two", c19Long + "\x00", "pu", "\x04\x02pa", "\x1b\x02pa", "\x04\x02pb", "gp",
 	// near misses of the stored passwords, of the same length, whose byte-wise differences cancel out under one folding or
 	// another (high bits toggled in two places, two bytes swapped, one byte up and one down)
-	"\xf0\xe1", "\xf0\xe2", "\xf0\xb1", "\xf0\xf5", "\xef\xf4her", "ap", "bp", "q`", "1p", "PA"}
+	"\xf0\xe1", "\xf0\xe2", "\xf0\xb1", "\xf0\xf5", "\xef\xf4her", "ap", "bp", "q`", "1p", "PA",
+	"{CLEARTEXT}hunter2", "hunter2", "{SHA}5en6G6MezRroT3XKqkdPOmY/BfQ=", "secret", "decoy", "decoy2", "real"}
 
 func c19Pred(users []c19User, anon bool, dn, pw string) bool {
 	if pw == "" && anon {
@@ -82,11 +93,20 @@ func c19Entries(users []c19User) []*gldap.Entry {
 		if u.PWs != nil {
 			attrs["password"] = append([]string{}, u.PWs...)
 		}
+		names := []string{"cn", "password"}
+		for n, v := range c19Extra[u.DN] {
+			attrs[n] = append([]string{}, v...)
+		}
+		for _, n := range []string{"Password", "PASSWORD"} {
+			if _, ok := attrs[n]; ok {
+				names = append([]string{n}, names...)
+			}
+		}
 		// the credentials are what the entry's exported fields show (GetAttributeValues), however the entry came to be
 		switch (i + len(users)) % 3 {
 		case 1: // a literal: Values only
 			e := &gldap.Entry{DN: u.DN}
-			for _, n := range []string{"cn", "password"} {
+			for _, n := range names {
 				if v, ok := attrs[n]; ok {
 					e.Attributes = append(e.Attributes, &gldap.EntryAttribute{Name: n, Values: v})
 				}
@@ -94,6 +114,9 @@ func c19Entries(users []c19User) []*gldap.Entry {
 			out = append(out, e)
 		case 2: // built with other values, then the password values are assigned
 			stale := map[string][]string{"cn": {"x"}}
+			for n, v := range c19Extra[u.DN] {
+				stale[n] = append([]string{}, v...)
+			}
 			if u.PWs != nil {
 				stale["password"] = []string{"stale-" + u.DN, "pa"}
 			}
